@@ -278,5 +278,8 @@ func trimControlCharsAndSpaces(s string) string {
 		}
 		iend--
 	}
+	if iend < istart {
+		return ""
+	}
 	return s[istart : iend+1]
 }
